@@ -491,6 +491,35 @@ def replies_echo_specifier(ctx):
                           f'`{src(tup)}` drops the specifier of the request: the reply to `{action} <spec>` cannot be '
                           'matched by a client that keys pending requests by (reply action, specifier)', fi)
                 continue
+            if isinstance(e, ast.Name):
+                # a local holding the specifier to answer with: every binding is the specifier itself, one of the pieces it was split
+                # into, None, or a text put together from those pieces only - not from a name that was LOOKED UP (the attribute name)
+                pieces = {spec}
+                for x in body_walk(fi.node):
+                    if isinstance(x, ast.Assign) and len(x.targets) == 1 and isinstance(x.targets[0], ast.Tuple) and isinstance(x.value, ast.Call) \
+                            and call_attr(x.value) in ('split', 'partition', 'rpartition') and src(x.value.func.value) == spec:
+                        pieces |= {t.id for t in x.targets[0].elts if isinstance(t, ast.Name)}
+                binds = [x.value for x in body_walk(fi.node) if isinstance(x, ast.Assign) and any(isinstance(t, ast.Name) and t.id == e.id for t in x.targets)]
+                foreign = []
+                known = bool(binds)
+                for v in binds:
+                    if isinstance(v, ast.Constant) and v.value is None:
+                        continue
+                    if isinstance(v, ast.Name):
+                        known = known and v.id in pieces
+                        continue
+                    if isinstance(v, (ast.JoinedStr, ast.BinOp)):
+                        foreign += [n_.id for n_ in ast.walk(v) if isinstance(n_, ast.Name) and n_.id not in pieces]
+                        continue
+                    known = False
+                if foreign:
+                    ctx.bad(f'{fi.qualname}:echoes specifier', ret, f'the reply carries `{s}`, which is put together with `{foreign[0]}` - a name that was not taken from the '
+                            f'request\'s specifier (an attribute name looked up for it): for an accessible exported under another name the reply to `{action} mod:_x` '
+                            'names `mod:x`, and the client can not match it', fi)
+                    continue
+                if known:
+                    ctx.ok(f'{fi.qualname}:echoes specifier', ret, f'`{s}` is the specifier, or put together from the pieces it was split into', fi)
+                    continue
             ctx.undecided(f'{fi.qualname}:echoes specifier', ret, f'second element `{s}` not recognised', fi)
 
 
